@@ -16,8 +16,11 @@ verus! {
 //@ include _async_common.inc
 
 // assumed std: `vec![0; n]`, `Vec::shrink_to_fit`, `Cow::Owned`
+// (the precondition is the allocation bound of C11: the buffer allocated for a payload announced
+// by the peer never exceeds the 4096-byte parse limit)
 #[verifier::external_body]
 fn vec_zeroed(n: usize) -> (r: Vec<u8>)
+    requires n <= 4096,
     ensures r@.len() == n,
 {
     vec![0; n]
